@@ -263,6 +263,30 @@ class Repo:
             self._resolve_bases(c)
         for c in self.classes.values():
             self._mro(c, ())
+        # helpers that are not in the reference inventory and were inlined at every call site are dead in the normalised
+        # program: they are not analysed on their own (their code is analysed where it runs)
+        self.dead_helpers = set()
+        base0 = expand.load_baseline()
+        if base0 is not None and isinstance(self.expansion, dict) and self.expansion.get('inlined_helpers'):
+            known_funcs = set(base0.get('functions', []))
+            used = set()
+            for m in self.modules.values():
+                for n in ast.walk(m.tree):
+                    if isinstance(n, ast.Attribute):
+                        used.add(n.attr)
+                    elif isinstance(n, ast.Name):
+                        used.add(n.id)
+            for q in self.expansion['inlined_helpers']:
+                name = q.split('.')[-1]
+                if q not in known_funcs and name not in used:
+                    parts = q.split('.')
+                    m = self.modules.get(parts[0])
+                    if m is None:
+                        continue
+                    if len(parts) == 2 and parts[1] in m.functions:
+                        self.dead_helpers.add(m.functions.pop(parts[1]))
+                    elif len(parts) == 3 and parts[1] in m.classes and parts[2] in m.classes[parts[1]].methods:
+                        self.dead_helpers.add(m.classes[parts[1]].methods.pop(parts[2]))
         # classes that are not in the reference inventory (private bases / mixins introduced by a refactoring) are
         # transparent: what they define is seen as defined by the inventoried class that inherits it
         base = expand.load_baseline()
